@@ -1,6 +1,7 @@
 """pyvc driver: explore all paths of one real function against its contract, discharge VCs."""
 import ast
 import os
+import sys
 import subprocess
 import tempfile
 import time
@@ -335,9 +336,7 @@ def crosscheck(ob):
     if other == 'cvc5':
         r = cvc5_check(s, 10000)
     else:
-        s.set('timeout', 10000)
-        rr = s.check()
-        r = 'unsat' if rr == z3.unsat else ('sat' if rr == z3.sat else 'unknown')
+        r = z3_cli_check(s, 10000) or 'unknown'
     ob.crosscheck = '%s:%s' % (other, r)
     if r == 'sat' and other == 'z3':
         ob.disagreement = True      # z3 with MBQI found a model of hypotheses + negated goal
@@ -377,7 +376,16 @@ def discharge(ob, timeout_ms):
         s.add(z3.Not(g))
         for h in hints:
             s.add(h)
-        r = s.check()
+        if not cfg:
+            cli = z3_cli_check(s, budget)
+            if cli is not None:
+                # 'sat' from the separate process carries no model here: the candidate-model path below decides
+                r = z3.unsat if cli == 'unsat' else z3.unknown
+                ob.cli_answer = cli
+                if r == z3.unsat:
+                    ob.solver += ' (cli)'
+                break
+        r = timed_check(s, budget)
         if r == z3.unsat:
             ob.solver += ' (e-matching)' if cfg else ''
             break
@@ -392,7 +400,7 @@ def discharge(ob, timeout_ms):
         ob.model = s.model()
     else:
         ob.result = 'unknown'
-        ob.reason = s.reason_unknown()
+        ob.reason = getattr(ob, 'cli_answer', None) and ('z3 (separate process): %s' % ob.cli_answer) or s.reason_unknown()
         # candidate counter-model from the quantifier-free part of the hypotheses: possibly spurious,
         # so it only ever counts after the replay adapter reproduces it on the real code
         try:
@@ -403,7 +411,7 @@ def discharge(ob, timeout_ms):
                     s2.add(h)
             if not _has_quantifier(g):
                 s2.add(z3.Not(g))
-            if s2.check() == z3.sat:
+            if timed_check(s2, 5000) == z3.sat:
                 ob.model = s2.model()
                 ob.candidate = True
         except z3.Z3Exception:
@@ -476,6 +484,61 @@ def _has_quantifier(t):
         if z3.is_app(x):
             todo += x.children()
     return False
+
+
+def z3_cli_check(solver, timeout_ms):
+    """The default z3 configuration (incl. MBQI) in a separate process with a hard kill: the in-process sequence solver
+    has been seen to ignore its timeout for more than an hour."""
+    import shutil
+    exe = shutil.which('z3-new') or shutil.which('z3')
+    if not exe:
+        return None
+    try:
+        text = solver.to_smt2()
+    except Exception:
+        return 'unknown'
+    scratch = os.environ.get('VERIF_SCRATCH') or tempfile.gettempdir()
+    fd, path = tempfile.mkstemp(suffix='.smt2', dir=scratch)
+    try:
+        with os.fdopen(fd, 'w') as fp:
+            fp.write(text)
+        sec = max(1, int(timeout_ms / 1000))
+        try:
+            out = subprocess.run([exe, '-smt2', '-T:%d' % sec, path], capture_output=True, text=True, timeout=sec + 10)
+        except subprocess.TimeoutExpired:
+            return 'unknown'
+        first = (out.stdout.strip().split('\n') or [''])[0]
+        return first if first in ('sat', 'unsat') else 'unknown'
+    finally:
+        os.unlink(path)
+
+
+_CALL = {'start': None, 'budget': 0}
+
+
+def _watchdog():
+    """Worker-side guard: an in-process solver call that overruns its budget by a minute ends the worker (the parent
+    reports the function as undecided instead of waiting for ever)."""
+    import threading
+
+    def loop():
+        while True:
+            time.sleep(5)
+            st = _CALL['start']
+            if st is not None and time.time() - st > _CALL['budget'] / 1000.0 + 60:
+                sys.stderr.write('pyvc: solver call overran its budget by 60 s; worker exits\n')
+                sys.stderr.flush()
+                os._exit(70)
+    t = threading.Thread(target=loop, daemon=True)
+    t.start()
+
+
+def timed_check(s, budget_ms):
+    _CALL['start'], _CALL['budget'] = time.time(), budget_ms
+    try:
+        return s.check()
+    finally:
+        _CALL['start'] = None
 
 
 def cvc5_check(solver, timeout_ms):
